@@ -3,7 +3,7 @@ C12 — Streaming delivers intact frames in order, never stalls, and stops promp
 
 Property theorems over the labelled transition system `CamVerif.Model.StreamLoop`.
 Every statement quantifies over ALL stream parameters, ALL device scripts (packets and transfer
-faults), ALL parse/build functions `A` and ALL schedules: `Reach P A script s` holds exactly for
+faults), ALL parse/build functions `A` and ALL schedules: `Reach A P script s` holds exactly for
 the states at the end of an arbitrary sequence of enabled atomic steps of the loop, the receiver,
 the controller and the environment (`Proofs.C12.run_of_reach / reach_of_run`).
 -/
@@ -14,6 +14,7 @@ import CamVerif.Proofs.C12Keep
 import CamVerif.Proofs.C12Intact
 import CamVerif.Proofs.C12Bytes
 import CamVerif.Proofs.C12Frames
+import CamVerif.Proofs.C12Restart
 namespace CamVerif.C12
 open CamVerif CamVerif.StreamLoop
 
@@ -38,7 +39,7 @@ def exIter2 : List Step := exIter1 ++ exToParse ++ [.parse, .trySend]
 /-- Reachability of the end of a concrete schedule, with an observation `f` of the final state. -/
 private theorem ex_reach' {α : Type} {A : Assembler} {steps : List Step} {f : State → α} {v : α}
     (h : (run exP A exScript (init exP) steps).map f = some v) :
-    ∃ s, Reach exP A exScript s ∧ f s = v := by
+    ∃ s, Reach A exP exScript s ∧ f s = v := by
   cases hr : run exP A exScript (init exP) steps with
   | none => rw [hr] at h; cases h
   | some s =>
@@ -48,7 +49,7 @@ private theorem ex_reach' {α : Type} {A : Assembler} {steps : List Step} {f : S
 
 private theorem ex_reach {α : Type} {steps : List Step} {f : State → α} {v : α}
     (h : (run exP exA exScript (init exP) steps).map f = some v) :
-    ∃ s, Reach exP exA exScript s ∧ f s = v := ex_reach' h
+    ∃ s, Reach exA exP exScript s ∧ f s = v := ex_reach' h
 
 /-! ## 6. recv_le_buf -/
 
@@ -57,7 +58,7 @@ private theorem ex_reach {α : Type} {steps : List Step} {f : State → α} {v :
 exactly the length of the payload buffer; and every `Ok` payload ever enqueued was built with
 `read_payload_size ≤ |payload buffer| = maximum_payload_size`. -/
 theorem recv_le_buf (P : Params) (A : Assembler) (script : List Item) (s : State)
-    (h : Reach P A script s) :
+    (h : Reach A P script s) :
     (s.pc = .parse → ∃ l b, s.last = some l ∧ s.cur = some b ∧ l ≤ s.plen ∧
         s.plen - l ≤ P.maxPayload ∧ b.bytes.length = P.maxPayload) ∧
     (∀ m ∈ s.sentLog, m.read ≤ m.buf.bytes.length ∧ m.buf.bytes.length = P.maxPayload) := by
@@ -74,7 +75,7 @@ theorem recv_le_buf (P : Params) (A : Assembler) (script : List Item) (s : State
     exact ⟨by omega, h2⟩
 
 /-- non-vacuity: the state before `parse` is reachable with a non-zero `read` -/
-example : ∃ s, Reach exP exA exScript s ∧ s.pc = .parse ∧ s.plen = 7 ∧ s.last = some 4 := by
+example : ∃ s, Reach exA exP exScript s ∧ s.pc = .parse ∧ s.plen = 7 ∧ s.last = some 4 := by
   have h : (run exP exA exScript (init exP) exToParse).isSome = true := by decide
   obtain ⟨s, hs⟩ := Option.isSome_iff_exists.mp h
   refine ⟨s, reach_of_run Reach.init hs, ?_⟩
@@ -108,24 +109,32 @@ private structure Inv (P : Params) (A : Assembler) (script : List Item) (s : Sta
   seg : Seg P script s
   asmd : Asmd A s
   contig : Contig P s
+  exitc : ExitClean s
 
 private theorem reach_inv {P : Params} {A : Assembler} {script : List Item} {s : State}
-    (h : Reach P A script s) : Inv P A script s := by
+    (h : Reach A P script s) : Inv P A script s := by
   induction h with
-  | init =>
+  | @init P script =>
     exact ⟨PoolOK_init P, Sizes_init P, ReuseOK_init P, Own_init P, Order_init P, CtlOK_init P,
-      by simp [init], by simp [PendOwn, init], KeepUp_init P, Seg_init P script, Asmd_init P A, Contig_init P⟩
+      by simp [init], by simp [PendOwn, init], KeepUp_init P, Seg_init P script, Asmd_init P A, Contig_init P,
+      ExitClean_init P⟩
+  | @restart P0 P script0 script s0 _ hcan ih =>
+    exact ⟨PoolOK_restart P s0, Sizes_restart P s0, ReuseOK_restart P s0,
+      Own_restart P ih.pool ih.exitc hcan.1 ih.own, Order_restart P s0, CtlOK_restart P s0,
+      by simp [restartState, init], by simp [PendOwn, restartState, init], KeepUp_restart P s0,
+      Seg_restart P script s0, Asmd_restart P A s0, Contig_restart P s0, ExitClean_restart P s0⟩
   | step _ hs ih =>
     exact ⟨PoolOK_step ih.pool hs, Sizes_step ih.pool ih.sizes hs, ReuseOK_step ih.reuse hs,
       Own_step ih.pool ih.reuse ih.own hs, Order_step ih.pool ih.order hs, CtlOK_step ih.ctl hs,
       pend_le_step ih.pool ih.pend hs, PendOwn_step ih.pool ih.pown hs,
       KeepUp_step ih.order ih.keep hs, Seg_step ih.pool ih.seg hs,
-      Asmd_step ih.pool ih.sizes ih.asmd hs, Contig_step ih.pool ih.sizes ih.contig hs⟩
+      Asmd_step ih.pool ih.sizes ih.asmd hs, Contig_step ih.pool ih.sizes ih.contig hs,
+      ExitClean_step ih.exitc hs⟩
 
 /-- non-vacuity for handed-back buffers of a FOREIGN size: the receiver sends back a payload this
 loop never produced (1 byte; `maximum_payload_size` is 3); the loop takes it from the send-back
 channel and resizes it, so every slice of `read_payload` is in range (`recv_le_buf`). -/
-example : ∃ s, Reach exP exA exScript s ∧
+example : ∃ s, Reach exA exP exScript s ∧
     (s.pc, s.cur.map (fun b => (b.id, b.bytes.length)), s.nextBuf) = (.submit 0, some (0, 3), 1) :=
   ex_reach (steps := [.rxSendForeign [9], .checkCancel, .obtainBack]) (by decide)
 
@@ -151,7 +160,7 @@ Under `ConformingFraming`, a segment starting at a frame boundary (`start = f·T
 `all_when_keeping_up` establishes for fault-free runs) is precisely the packet list of frame `f`,
 so leader, trailer and all fields are that frame's. -/
 theorem frames_intact_segment (P : Params) (A : Assembler) (script : List Item) (s : State)
-    (h : Reach P A script s) :
+    (h : Reach A P script s) :
     ∀ m ∈ s.sentLog, m.parts.length = P.T ∧
       (script.drop m.start).take P.T = m.parts.map Item.data ∧
       ∃ leader trailer, m.parts.head? = some leader ∧ m.parts.getLast? = some trailer ∧
@@ -165,7 +174,7 @@ buffer of every enqueued `Ok` payload starts with exactly the payload packets of
 (everything between its first and last packet), concatenated without gap or stale byte, and
 `read_payload_size` is their total length.  (The assembler only accepts `valid ≤ read`, C11.) -/
 theorem frames_intact_bytes (P : Params) (A : Assembler) (script : List Item) (s : State)
-    (h : Reach P A script s) :
+    (h : Reach A P script s) :
     ∀ m ∈ s.sentLog, m.read = bsum (middle m.parts) ∧
       m.buf.bytes.take m.read = (middle m.parts).flatten := by
   intro m hm
@@ -188,7 +197,7 @@ theorem frames_intact (P : Params) (A : Assembler) (script : List Item) (frames 
     (isLeader : Bytes → Prop) (hconf : ConformingFraming P script frames)
     (hA : ∀ lb tb buf r b, A lb tb buf r = .built b → isLeader lb)
     (hL : ∀ f ∈ frames, ∀ i (h : i < f.length), isLeader f[i] → i = 0)
-    (s : State) (h : Reach P A script s) :
+    (s : State) (h : Reach A P script s) :
     ∀ m ∈ s.sentLog, ∃ q, ∃ hq : q < frames.length,
       m.start = q * P.T ∧ m.parts = frames[q] ∧
       m.read = bsum (middle frames[q]) ∧
@@ -254,7 +263,7 @@ def exA2 : Assembler := fun lb _ _ read =>
 /-- JOINT non-vacuity of `frames_intact`: with the conditional assembler `exA2` and "is a leader"
 = "starts with byte 1", all three hypotheses hold on the example script, a state with two enqueued
 payloads is reachable, and the theorem's conclusion identifies them as frames 0 and 1. -/
-example : ∃ s, Reach exP exA2 exScript s ∧ s.sentLog.length = 2 ∧
+example : ∃ s, Reach exA2 exP exScript s ∧ s.sentLog.length = 2 ∧
     ∀ m ∈ s.sentLog, ∃ q, ∃ hq : q < exFrames.length, m.start = q * exP.T ∧ m.parts = exFrames[q] ∧
       m.buf.bytes.take m.read = (middle exFrames[q]).flatten := by
   obtain ⟨s, hr, hs⟩ := ex_reach' (A := exA2) (steps := exIter2) (f := fun s => s.sentLog.length)
@@ -274,7 +283,7 @@ example : ∃ s, Reach exP exA2 exScript s ∧ s.sentLog.length = 2 ∧
   exact ⟨q, hq, h1, h2, h4⟩
 
 /-- non-vacuity: two payloads enqueued from the segments starting at 0 and 4 (= T) -/
-example : ∃ s, Reach exP exA exScript s ∧
+example : ∃ s, Reach exA exP exScript s ∧
     s.sentLog.map (fun m => (m.start, m.parts.length, m.buf.bytes, m.read)) =
       [(0, 4, [10, 11, 12], 3), (4, 4, [20, 21, 22], 3)] :=
   ex_reach (steps := exIter2) (by decide)
@@ -290,7 +299,7 @@ at `try_send`, the one just completed), and each is either already received or s
 the receiver.  (`pc ≠ dead`: a loop thread killed by a panicking parse/build — excluded by C11's
 `build_total` — stops counting.) -/
 theorem all_when_keeping_up (P : Params) (A : Assembler) (script : List Item) (s : State)
-    (h : Reach P A script s) (hf : s.faults = 0) :
+    (h : Reach A P script s) (hf : s.faults = 0) :
     s.sentLog.map (·.start) = segStarts P.T s.sentLog.length ∧
     s.recvLog ++ okMsgs s.chan = s.sentLog ∧
     (s.pc ≠ .dead → s.consumed < (s.sentLog.length + 1) * P.T + P.T) := by
@@ -318,7 +327,7 @@ theorem all_when_keeping_up (P : Params) (A : Assembler) (script : List Item) (s
   | dead => exact absurd hpc hnd
 
 /-- non-vacuity: a fault-free run with two frames sent, both enqueued -/
-example : ∃ s, Reach exP exA exScript s ∧ (s.faults, s.sentLog.length, s.consumed) = (0, 2, 8) :=
+example : ∃ s, Reach exA exP exScript s ∧ (s.faults, s.sentLog.length, s.consumed) = (0, 2, 8) :=
   ex_reach (steps := exIter2) (by decide)
 
 /-! ## 2. in_order_no_dup -/
@@ -329,7 +338,7 @@ reordered); every enqueued payload was assembled from its own segment `[start, s
 device's packet sequence, these segments are pairwise disjoint and increasing (so a frame is
 delivered at most once and in the order sent) and lie inside what the device sent so far. -/
 theorem in_order_no_dup (P : Params) (A : Assembler) (script : List Item) (s : State)
-    (h : Reach P A script s) :
+    (h : Reach A P script s) :
     s.recvLog <+: s.sentLog ∧
     (s.sentLog.map (·.start)).Pairwise (fun a b => a + P.T ≤ b) ∧
     (s.recvLog.map (·.start)).Pairwise (· < ·) ∧
@@ -347,7 +356,7 @@ theorem in_order_no_dup (P : Params) (A : Assembler) (script : List Item) (s : S
     · have := hi.enqc he; omega
 
 /-- non-vacuity: one payload received, a second one enqueued -/
-example : ∃ s, Reach exP exA exScript s ∧ (s.recvLog.length, s.sentLog.length, s.chan.length) = (1, 2, 1) :=
+example : ∃ s, Reach exA exP exScript s ∧ (s.recvLog.length, s.sentLog.length, s.chan.length) = (1, 2, 1) :=
   ex_reach (steps := exIter2) (by decide)
 
 /-! ## 5. buffers_unique_owner -/
@@ -359,7 +368,7 @@ transfers exist only while the loop owns their buffer; and the loop's current bu
 buffer a completing transfer writes (`applyData`) — is not held by the receiver, not in a channel
 and not freed. -/
 theorem buffers_unique_owner (P : Params) (A : Assembler) (script : List Item) (s : State)
-    (h : Reach P A script s) :
+    (h : Reach A P script s) :
     (∀ i, i < s.nextBuf → (owned s).count i = 1) ∧
     (∀ i, s.nextBuf ≤ i → i ∉ owned s) ∧
     (s.pending ≠ [] → s.cur.isSome = true ∨ s.reuse.isSome = true) ∧
@@ -378,7 +387,7 @@ theorem buffers_unique_owner (P : Params) (A : Assembler) (script : List Item) (
     refine ⟨?_, ?_, ?_, ?_⟩ <;> (intro hmem; have := List.count_pos_iff.mpr hmem; omega)
 
 /-- non-vacuity: two buffers allocated; the receiver holds #0 while transfers write into #1 -/
-example : ∃ s, Reach exP exA exScript s ∧
+example : ∃ s, Reach exA exP exScript s ∧
     (s.nextBuf, s.held.map (·.buf.id), s.cur.map (·.id), s.pending.length, s.pc) = (2, [0], some 1, 2, .poll) :=
   ex_reach (steps := exIter1 ++ [.checkCancel, .obtainAlloc, .submitOk, .submitOk, .submitOk, .submitOk, .pollOk, .pollOk])
     (by decide)
@@ -399,7 +408,7 @@ While polling, the step `pollPending` (the poll call returns `Timeout` after at 
 per-transfer timeout) is always enabled: this is the one fairness/timing assumption — the
 environment delivers either a completion or the timeout. -/
 theorem loop_never_blocks (P : Params) (A : Assembler) (script : List Item) (s : State)
-    (h : Reach P A script s) (h1 : s.pc ≠ .exited) (h2 : s.pc ≠ .dead)
+    (h : Reach A P script s) (h1 : s.pc ≠ .exited) (h2 : s.pc ≠ .dead)
     (chan : List Msg) (back held : List OkMsg) (rxAlive : Bool) :
     (∃ a, a.isLoop = true ∧
       (step P A script { s with chan := chan, back := back, held := held, rxAlive := rxAlive } a).isSome = true) ∧
@@ -417,7 +426,7 @@ theorem loop_never_blocks (P : Params) (A : Assembler) (script : List Item) (s :
   | cons x r => simp [step, stepPollPending, hpc, hpd]
 
 /-- non-vacuity: a polling loop with a full channel and a receiver that never receives -/
-example : ∃ s, Reach exP exA exScript s ∧ (s.pc, s.chan.length, s.pending.length) = (.poll, 1, 4) :=
+example : ∃ s, Reach exA exP exScript s ∧ (s.pc, s.chan.length, s.pending.length) = (.poll, 1, 4) :=
   ex_reach (steps := exToParse ++ [.parse, .trySend, .iterEnd, .checkCancel, .obtainAlloc,
     .submitOk, .submitOk, .submitOk, .submitOk]) (by decide)
 
@@ -463,7 +472,7 @@ private theorem run_phi {P : Params} {A : Assembler} {script : List Item} :
   if the loop died instead, `stop` returns an error (the step `stopDisc` is enabled / was taken);
 * once the loop is leaving or gone no transfer is in flight and no step enqueues anything. -/
 theorem stop_bounded (P : Params) (A : Assembler) (script : List Item) (s s' : State)
-    (h : Reach P A script s) (hstop : s.ctl = .stopping) (as : List Step)
+    (h : Reach A P script s) (hstop : s.ctl = .stopping) (as : List Step)
     (hrun : run P A script s as = some s') :
     countLoop as + phi P s' ≤ phi P s ∧ phi P s ≤ stopBound P ∧
     s'.ctl ≠ .running ∧
@@ -489,7 +498,7 @@ theorem stop_bounded (P : Params) (A : Assembler) (script : List Item) (s s' : S
     rcases hpc with hpc | hpc | hpc <;> (simp only [PoolOK, hpc] at h2; exact h2.1)
 
 /-- non-vacuity: a stop request in the middle of a frame; the loop cancels, reaps and leaves -/
-example : ∃ s, Reach exP exA exScript s ∧ (s.ctl, s.pc, s.pending.length) = (.stopping, .poll, 3) :=
+example : ∃ s, Reach exA exP exScript s ∧ (s.ctl, s.pc, s.pending.length) = (.stopping, .poll, 3) :=
   ex_reach (steps := [.checkCancel, .obtainAlloc, .submitOk, .submitOk, .submitOk, .submitOk, .pollOk,
     .stopCall, .stopBlock]) (by decide)
 
@@ -506,7 +515,7 @@ channel or an absent receiver never terminate the loop: in every reachable state
 has left (or is leaving) `run`, the controller's `stop` rendezvous has completed (`closed` = the
 `close()` that followed that stop has finished too). -/
 theorem loop_exits_only_on_stop (P : Params) (A : Assembler) (script : List Item) (s : State)
-    (h : Reach P A script s) (hpc : s.pc = .exiting ∨ s.pc = .exited) :
+    (h : Reach A P script s) (hpc : s.pc = .exiting ∨ s.pc = .exited) :
     s.ctl = .stopOk ∨ s.ctl = .closed :=
   (reach_inv h).ctl.exit_ok hpc
 
@@ -515,7 +524,7 @@ after the loop thread has returned from `run`: it stops a running loop first and
 channel lock the loop holds for its whole life.  Hence after `close`/`drop` no transfer is in
 flight (and, by `stop_bounded`, nothing is enqueued any more). -/
 theorem close_returns_after_exit (P : Params) (A : Assembler) (script : List Item) (s : State)
-    (h : Reach P A script s) (hc : s.ctl = .closed) : s.pc = .exited ∧ s.pending = [] := by
+    (h : Reach A P script s) (hc : s.ctl = .closed) : s.pc = .exited ∧ s.pending = [] := by
   have hi := reach_inv h
   have hpc := hi.ctl.closed_exit hc
   have hp := hi.pool
@@ -523,7 +532,7 @@ theorem close_returns_after_exit (P : Params) (A : Assembler) (script : List Ite
   exact ⟨hpc, hp.1⟩
 
 /-- non-vacuity: stop, loop exit, close -/
-example : ∃ s, Reach exP exA exScript s ∧ (s.ctl, s.pc) = (.closed, .exited) :=
+example : ∃ s, Reach exA exP exScript s ∧ (s.ctl, s.pc) = (.closed, .exited) :=
   ex_reach (steps := [.stopCall, .stopBlock, .checkCancel, .exit, .closeDone])
     (f := fun s => (s.ctl, s.pc)) (by decide)
 
@@ -561,16 +570,17 @@ private theorem not_dead_step {P : Params} {A : Assembler} {script : List Item} 
 total assembler (C11 `build_total`) no reachable state has a dead loop — in particular the
 `unwrap` of `last_buf_len` and the subtraction `payload_len - last` never panic. -/
 theorem dead_only_by_panic (P : Params) (A : Assembler) (script : List Item) (s : State)
-    (hA : ∀ lb tb buf r, A lb tb buf r ≠ .panic) (h : Reach P A script s) : s.pc ≠ .dead := by
+    (hA : ∀ lb tb buf r, A lb tb buf r ≠ .panic) (h : Reach A P script s) : s.pc ≠ .dead := by
   induction h with
   | init => simp [init]
+  | restart _ _ _ => simp [restartState, init]
   | step hr hs ih => exact not_dead_step hA (reach_inv hr).pool ih hs
 
 /-- **running_flag_implies_alive** (the contract C16 assumes of `is_loop_running`): with a total
 assembler, whenever the handle reports a running loop (`cancellation_tx.is_some()`, `ctl =
 running`) the loop thread is alive — it has neither returned nor died. -/
 theorem running_flag_implies_alive (P : Params) (A : Assembler) (script : List Item) (s : State)
-    (hA : ∀ lb tb buf r, A lb tb buf r ≠ .panic) (h : Reach P A script s) (hrun : s.ctl = .running) :
+    (hA : ∀ lb tb buf r, A lb tb buf r ≠ .panic) (h : Reach A P script s) (hrun : s.ctl = .running) :
     s.pc ≠ .exiting ∧ s.pc ≠ .exited ∧ s.pc ≠ .dead := by
   have hc := (reach_inv h).ctl
   refine ⟨?_, ?_, dead_only_by_panic P A script s hA h⟩
@@ -579,9 +589,166 @@ theorem running_flag_implies_alive (P : Params) (A : Assembler) (script : List I
 
 /-- non-vacuity: `exA` never panics, and a running, alive loop is reachable -/
 example : (∀ lb tb buf r, exA lb tb buf r ≠ .panic) ∧
-    ∃ s, Reach exP exA exScript s ∧ (s.ctl, s.pc) = (.running, .parse) := by
+    ∃ s, Reach exA exP exScript s ∧ (s.ctl, s.pc) = (.running, .parse) := by
   refine ⟨?_, ex_reach (steps := exToParse) (f := fun s => (s.ctl, s.pc)) (by decide)⟩
   intro _ _ _ _ h; cases h
+
+/-! ## Sessions: restart on the same handle -/
+
+/-- **restart_nothing_outstanding**: in every history, whenever a further session can start
+(`canRestart`: the previous one was stopped or the handle closed, and its loop thread has returned)
+no transfer is in flight, the loop owns no buffer any more, and nothing more was enqueued after the
+loop left (by `stop_bounded`); the new session starts with an empty pool and fresh channels while
+the receiver keeps exactly the payloads it held. -/
+theorem restart_nothing_outstanding (P : Params) (A : Assembler) (script : List Item) (s : State)
+    (h : Reach A P script s) (hc : canRestart s) (P' : Params) :
+    s.pending = [] ∧ loopOwned s = [] ∧
+    (restartState P' s).pending = [] ∧ (restartState P' s).held = s.held ∧
+    (restartState P' s).chan = [] ∧ (restartState P' s).back = [] := by
+  have hi := reach_inv h
+  have hp := hi.pool
+  simp only [PoolOK, hc.1] at hp
+  refine ⟨hp.1, ?_, rfl, rfl, rfl, rfl⟩
+  simp [loopOwned, hp.2, hi.exitc hc.1, hc.1, inHand]
+
+/-- **held_payloads_safe_across_sessions**: a payload the receiver holds — from this session or
+kept from ANY earlier session on the handle — has a buffer identity different from every buffer
+the loop can write (its current buffer, target of all in-flight transfers), from every buffer in a
+channel and from every freed one; loop steps never touch it (`held_untouched_by_loop`), and a
+restart keeps it.  Handing it back in a later session (another layout: foreign size) makes the loop
+resize and reuse it only after the receiver has given it up. -/
+theorem held_payloads_safe_across_sessions (P : Params) (A : Assembler) (script : List Item)
+    (s : State) (h : Reach A P script s) :
+    ∀ m ∈ s.held, (owned s).count m.buf.id = 1 ∧
+      (∀ b, s.cur = some b → b.id ≠ m.buf.id) ∧ (∀ b, s.reuse = some b → b.id ≠ m.buf.id) ∧
+      m.buf.id ∉ chanOwned s ∧ m.buf.id ∉ backOwned s ∧ m.buf.id ∉ s.freed := by
+  intro m hm
+  have hi := reach_inv h
+  have hc := hi.own m.buf.id
+  have hmem : m.buf.id ∈ rxOwned s := List.mem_map.mpr ⟨m, hm, rfl⟩
+  have hpos : 0 < (rxOwned s).count m.buf.id := List.count_pos_iff.mpr hmem
+  have hle : (owned s).count m.buf.id ≤ 1 := by rw [hc]; split <;> omega
+  have hown : (owned s).count m.buf.id = 1 := by
+    have : 0 < (owned s).count m.buf.id := by
+      simp only [owned, List.count_append]; omega
+    omega
+  simp only [owned, loopOwned, List.count_append] at hle
+  refine ⟨hown, ?_, ?_, ?_, ?_, ?_⟩
+  · intro b hb heq
+    have : 0 < (optId s.cur).count m.buf.id := by rw [hb, optId_some, ← heq]; simp
+    omega
+  · intro b hb heq
+    have : 0 < (optId s.reuse).count m.buf.id := by rw [hb, optId_some, ← heq]; simp
+    omega
+  · intro hmem'; have := List.count_pos_iff.mpr hmem'; omega
+  · intro hmem'; have := List.count_pos_iff.mpr hmem'; omega
+  · intro hmem'; have := List.count_pos_iff.mpr hmem'; omega
+
+/-- second session of the examples: another layout (leader 4, trailer 4, ONE payload transfer of
+5 bytes), capacity 2 -/
+def exP2 : Params := ⟨4, 4, 5, 1, 0, 0, 2, 5, 0⟩
+def exScript2 : List Item := [.data [1, 2, 3, 4], .data [30, 31, 32, 33, 34], .data [5, 6, 7, 8]]
+
+/-- steps of the second session: the receiver hands the payload kept from the FIRST session back,
+the loop takes it from the send-back channel, resizes it and receives a frame into it -/
+def exSession2 : List Step :=
+  [.rxSendBack 0, .checkCancel, .obtainBack, .submitOk, .submitOk, .submitOk, .pollOk, .pollOk, .pollOk,
+   .parse, .trySend]
+
+/-- A history with two sessions, executably: run the first session, restart, run the second. -/
+def exTwoSessions : Option State :=
+  (run exP exA exScript (init exP) (exIter1 ++ [.stopCall, .stopBlock, .checkCancel, .exit])).bind fun s1 =>
+    if canRestart s1 then run exP2 exA exScript2 (restartState exP2 s1) exSession2 else none
+
+/-- non-vacuity, TWO SESSIONS in one history: the first session delivers a frame which the receiver
+keeps (buffer #0, 3 bytes), the controller stops, the loop leaves; the handle is restarted with
+another layout (`maximum_payload_size` 5); the receiver hands the OLD payload back, the new loop
+resizes and reuses buffer #0 — no new buffer is allocated — for the frame of the second session
+and enqueues it. -/
+example : ∃ s2, Reach exA exP2 exScript2 s2 ∧
+    (s2.sentLog.map (fun m => (m.buf.id, m.buf.bytes, m.start)), s2.held.length, s2.nextBuf) =
+      ([(0, [30, 31, 32, 33, 34], 0)], 0, 1) := by
+  have hv : exTwoSessions.map (fun s2 =>
+      (s2.sentLog.map (fun m => (m.buf.id, m.buf.bytes, m.start)), s2.held.length, s2.nextBuf)) =
+      some ([(0, [30, 31, 32, 33, 34], 0)], 0, 1) := by decide
+  unfold exTwoSessions at hv
+  cases h1 : run exP exA exScript (init exP) (exIter1 ++ [.stopCall, .stopBlock, .checkCancel, .exit]) with
+  | none => rw [h1] at hv; cases hv
+  | some s1 =>
+    rw [h1] at hv
+    simp only [Option.bind_some] at hv
+    by_cases hc : canRestart s1
+    · rw [if_pos hc] at hv
+      cases h2 : run exP2 exA exScript2 (restartState exP2 s1) exSession2 with
+      | none => rw [h2] at hv; cases hv
+      | some s2 =>
+        rw [h2] at hv
+        simp only [Option.map_some, Option.some.injEq] at hv
+        exact ⟨s2, reach_of_run (Reach.restart (reach_of_run Reach.init h1) hc) h2, hv⟩
+    · rw [if_neg hc] at hv; cases hv
+
+/-! ## Keeping-up receiver: everything is RECEIVED -/
+
+/-- **all_received_when_drained**: `all_when_keeping_up` for DELIVERED frames.  If no fault event
+has happened in the session (`faults = 0`) and the receiver has kept up — it has taken everything
+out of the payload channel (`chan = []`) — then the payloads it RECEIVED are exactly one per
+complete frame the device has sent in this session, in order, none missing:
+`recvLog = sentLog`, with segment starts `0, T, 2T, …`. -/
+theorem all_received_when_drained (P : Params) (A : Assembler) (script : List Item) (s : State)
+    (h : Reach A P script s) (hf : s.faults = 0) (hdrained : s.chan = []) :
+    s.recvLog = s.sentLog ∧
+    s.recvLog.map (·.start) = segStarts P.T s.recvLog.length ∧
+    (s.pc ≠ .dead → s.consumed < (s.recvLog.length + 1) * P.T + P.T) := by
+  obtain ⟨h1, h2, h3⟩ := all_when_keeping_up P A script s h hf
+  have heq : s.recvLog = s.sentLog := by
+    rw [← h2, hdrained]; simp [okMsgs]
+  rw [heq]
+  exact ⟨rfl, h1, h3⟩
+
+/-- non-vacuity: a fault-free run in which the receiver has drained the channel after two frames -/
+example : ∃ s, Reach exA exP exScript s ∧ (s.faults, s.chan.length, s.recvLog.length) = (0, 0, 2) :=
+  ex_reach (steps := exIter2 ++ [.rxRecv]) (by decide)
+
+/-! ## A dead loop thread -/
+
+/-- **stop_on_dead_loop**: if the loop thread has died (`pc = dead`; only a panicking parse/build
+can do that, `dead_only_by_panic`), then in every history
+* `stop`/`close` never report success (`ctl` is neither `stopOk` nor `closed`);
+* a `stop_streaming_loop` issued now clears the running flag at once (`take()`) and its `send`
+  fails immediately: error return (`stopCall` then `stopBlock` lead to `stopErr`);
+* a controller that was already parked in the rendezvous is released with an error (`stopDisc`);
+* the loop has released every buffer and no transfer is in flight;
+* no further session can be started in the model (`¬ canRestart`: the real handle is unusable then,
+  its receive-channel lock is poisoned). -/
+theorem stop_on_dead_loop (P : Params) (A : Assembler) (script : List Item) (s : State)
+    (h : Reach A P script s) (hd : s.pc = .dead) :
+    (s.ctl ≠ .stopOk ∧ s.ctl ≠ .closed) ∧
+    (s.ctl = .running → ∃ s1 s2, step P A script s .stopCall = some s1 ∧ s1.ctl ≠ .running ∧
+        step P A script s1 .stopBlock = some s2 ∧ s2.ctl = .stopErr) ∧
+    (s.ctl = .stopping → ∃ s', step P A script s .stopDisc = some s' ∧ s'.ctl = .stopErr) ∧
+    (s.pending = [] ∧ s.cur = none) ∧
+    ¬ canRestart s := by
+  have hi := reach_inv h
+  have hp := hi.pool
+  simp only [PoolOK, hd] at hp
+  refine ⟨⟨?_, ?_⟩, ?_, ?_, hp, ?_⟩
+  · intro hc; rcases hi.ctl.ok_exit hc with h' | h' <;> rw [hd] at h' <;> cases h'
+  · intro hc; have := hi.ctl.closed_exit hc; rw [hd] at this; cases this
+  · intro hr
+    refine ⟨{ s with ctl := .calling }, { s with ctl := .stopErr }, ?_, by simp, ?_, rfl⟩
+    · simp [step, stepStopCall, hr]
+    · simp [step, stepStopBlock, hd]
+  · intro hst
+    exact ⟨{ s with ctl := .stopErr }, by simp [step, stepStopDisc, hst, hd], rfl⟩
+  · intro hc; rw [hc.1] at hd; cases hd
+
+/-- an assembler that panics on every frame -/
+def exAPanic : Assembler := fun _ _ _ _ => .panic
+
+/-- non-vacuity: with a panicking assembler the loop thread dies at `parse` while the handle still
+reports a running loop -/
+example : ∃ s, Reach exAPanic exP exScript s ∧ (s.pc, s.ctl) = (.dead, .running) :=
+  ex_reach' (A := exAPanic) (steps := exToParse ++ [.parse]) (f := fun s => (s.pc, s.ctl)) (by decide)
 
 /-- `B(params)` is linear in the number of transfers per frame (for a fixed cancellation latency
 `maxLate` of the USB stack; `3·T + 6` when cancellations are reported at once). -/
